@@ -74,6 +74,13 @@ fn explore(run: &mut Run, family: u8) {
         let (s, a, b) = lp[i];
         long_run(ctx, s, a, b, lmax, stride, family);
     });
+    // CAPRET: for every square, a man captured there and everything returning: positions that
+    // differ only by the man on that square must not be counted as repetitions
+    run.par_shards("CAPRET: 64 capture-and-return games (one per square), full oracle after every ply", 64, |ctx, x| {
+        if let Some((game, ops)) = capret_game(x) {
+            line_run(ctx, &game, &ops, 1, family);
+        }
+    });
     if family == 13 {
         equality(run, &gs[1]);
     } else {
